@@ -355,7 +355,8 @@ def check_point(case):
             if not near(cg[a], g[a], pk / h):
                 bad.append(('gradient[%d]' % a, cg[a], g[a]))
         # Wrapper: rij recomputed via sqrt -> compare to python at that rij
-        rr = math.sqrt(xij[0] ** 2 + xij[1] ** 2 + xij[2] ** 2)
+        # exactly the wrapper's expression (x*x, not pow(x, 2))
+        rr = math.sqrt(xij[0] * xij[0] + xij[1] * xij[1] + xij[2] * xij[2])
         pw = kern.kernel(xij, rr, h)
         pg = [0.0, 0.0, 0.0]
         kern.gradient(xij, rr, h, pg)
